@@ -78,5 +78,26 @@ fn console_vxw_c03() {
             }
         }
     }
+    // ---- the caller's elevation as the agent derives it from the kernel's record: only the value the hook writes for root (1)
+    //      elevates; 0 and every value the hook never writes (-1, 2, i32::MIN, i32::MAX) must not open WireServer / HostGAPlugin
+    let rt = tokio::runtime::Builder::new_current_thread().enable_all().build().unwrap();
+    let _guard = rt.enter();
+    let pss = crate::shared_state::proxy_server_wrapper::ProxyServerSharedState::start_new();
+    for is_admin in [0i32, -1, 2, i32::MIN, i32::MAX, 256, 1] {
+        let entry = crate::redirector::AuditEntry { logon_id: 0, process_id: std::process::id(), is_admin, destination_ipv4: 0, destination_port: 0 };
+        let c = rt.block_on(crate::proxy::Claims::from_audit_entry(&entry, "127.0.0.1".parse().unwrap(), 5555, pss.clone()));
+        let c = match c { Ok(c) => c, Err(e) => { println!("VXW-NOTE from_audit_entry failed for is_admin {}: {}", is_admin, e); continue; } };
+        for (ip, port, ep) in [("168.63.129.16", 80u16, "wireserver"), ("168.63.129.16", 32526, "hostga")] {
+            for r in [None, Some(rules("disabled", "allow", 0)), Some(rules("audit", "allow", 2)), Some(rules("enforce", "allow", 2))] {
+                n += 1;
+                let mut logger = ConnectionLogger::new(0, 0);
+                let got = super::authorize(ip.to_string(), port, &mut logger, hyper::Uri::from_str("/machine?comp=goalstate").unwrap(), c.clone(), r);
+                let relayable = got != super::AuthorizeResult::Forbidden;
+                if relayable != (is_admin == 1) {
+                    println!("VXW-FAIL {{\"case\":\"elevation derived from the audit record\",\"is_admin_in_record\":{},\"endpoint\":\"{}\",\"runAsElevated\":{},\"relayable\":{},\"want_relayable\":{}}}", is_admin, ep, c.runAsElevated, relayable, is_admin == 1);
+                }
+            }
+        }
+    }
     println!("VXW-DONE {}", n);
 }
